@@ -25,6 +25,7 @@ def kind_class(kd):
 
 
 class FnInfo:
+    ALL = []   # every function item the parser saw (source fingerprints, see rs2lean.py `src_fns`)
     def __init__(self, file, owner, trait, trait_arg, kinds, fn, macro=None):
         self.file = file
         self.owner = owner          # struct name or '' for free fn
@@ -34,6 +35,7 @@ class FnInfo:
         self.fn = fn                # ('fn', name, params, ret, body, err)
         self.macro = macro
         self.generics = None
+        FnInfo.ALL.append(self)
 
     @property
     def name(self):
